@@ -148,6 +148,8 @@ Apply(G, L, r, Cont) ==
      [] r.op = "flatten"  -> [gr |-> [G EXCEPT ![r.s] = Flatten(@, Cont)], live |-> L]
      [] r.op = "reduce"   -> [gr |-> [G EXCEPT ![r.s] = TransReduction(@)], live |-> L]
      [] r.op = "close"    -> [gr |-> [G EXCEPT ![r.s] = TransClosure(@)], live |-> L]
+     [] r.op = "rebuild"  -> [gr |-> G, live |-> L]     \* the same graph constructed another way (from a dependency
+                                                        \* dictionary, the full constructor, a copy, a sum ...) is the same graph
      [] OTHER             -> [gr |-> G, live |-> L]     \* queries do not change anything
 
 (* the slot an operation writes *)
